@@ -16,5 +16,13 @@ CLAIMED = {
                  "hostile payloads per quick run; dash and bash run a sample (test).",
          "note": TB + "ShLex is our reading of POSIX quoting (validated on dash/bash samples); tabwriter modelled for one column without TAB/VT/FF/0xFF.",
          "technique": "Coq proof (induction on the row bytes through a lexer automaton) + differential correspondence judged by vm_compute"},
+ "C16": {"text": "Coq theorems (all scripts, all names without a quote): the text perl receives from the generated wrapper - modelled as shell "
+                 "single-quote value -> q{...} brace matching -> y/sb/\\47\\134/ -> unpack u - equals the cleaned script; the cleaned script is the trimmed "
+                 "script with exactly the leading comment run blanked, line count preserved; the embedded payload never contains quote, backslash or "
+                 "brace. Model tied to FromPerl byte-for-byte on ~900 generated scripts per quick run, judged in Coq. Behavioural equivalence (stdout, "
+                 "exit status under dash/bash vs perl directly) is a differential TEST on generated programs, not a proof: partial for that clause.",
+         "note": TB + "receiving side (sh quoting, perl q{}, y///, unpack, perl -d/PERL5DB evaluation order) is modelled, validated by runs of real perl/dash/bash; "
+                 "known findings: empty script, raw CR LF inside a literal.",
+         "technique": "Coq proof (lexer/decoder composition lemmas over the uu round-trip theorem) + differential correspondence judged by vm_compute + perl/sh differential test"},
 }
 NOT_CLAIMED = {}
